@@ -123,6 +123,10 @@ OnLadder(ev) ==
   /\ ladder' = IF ev.bid >= 1 /\ ev.oc = "ok" THEN ladder ELSE Append(ladder, ev)
   /\ viol' = viol
        \cup If(ev.oc = "panic" /\ ev.bid # 2, V("C14", "PanicUnderMemoryLimit", ev))
+       \* ev.bid = 3: the first payload of this batch goes to a reader that refused an earlier batch for memory; its error
+       \* is sticky, so the batch is refused again and the refusal is still recognisable (a reader that resumes has lost
+       \* the dictionary it was reading when it refused)
+       \cup If(ev.bid = 3 /\ ~(ev.oc = "error" /\ ev.flag = 1), V("C14", "RefusedReaderDoesNotKeepRefusing", ev))
        \cup If(ev.b > ev.a, V("C14", "ReportedInUseExceedsLimit", ev))
        \cup If(ev.bid = 0 /\ ev.oc # "ok" /\ \E j \in DOMAIN ladder : ladder[j].bid = 0 /\ ladder[j].oc = "ok" /\ ladder[j].a <= ev.a,
                V("C14", "RaisingLimitRefusesDecodableBatch", ev))
